@@ -123,9 +123,59 @@ fn one<const D: usize>(id: &str, rng: &mut Rng, out: &mut Out, with_process: boo
     out.end();
 }
 
+/// quantisation ties: a few frame points spanning 2^34 and a small cluster (a unit hypercube's
+/// corners, cospherical) that falls into ONE cell of the 31-bit Morton/Hilbert grid.  The order of
+/// the tied points is then decided by the documented tie-break alone; (a) the ordered VALUE
+/// sequence (hook H3) and (b) the built cell set must not depend on the caller's listing order.
+fn tie_cluster<const D: usize>(id: &str, rng: &mut Rng, out: &mut Out) {
+    use delaunay::core::delaunay_triangulation::{verif_api, InsertionOrderStrategy};
+    let big = 4294967296.0f64; // 2^32
+    let mut pts: Vec<Vec<f64>> = Vec::new();
+    // frame: simplex corners of [-2^32, 3*2^32]^D plus the opposite corner
+    pts.push(vec![-big; D]);
+    for a in 0..D { let mut p = vec![-big; D]; p[a] = 3.0 * big; pts.push(p); }
+    pts.push(vec![3.0 * big; D]);
+    // cluster: corners of a unit hypercube at a small integer offset (up to 2^D points, at most 8)
+    let off: Vec<f64> = (0..D).map(|_| rng.range(0, 3) as f64).collect();
+    let ncube = 1usize << D.min(3);
+    for m in 0..ncube {
+        let mut p = off.clone();
+        for a in 0..D.min(3) { if (m >> a) & 1 == 1 { p[a] += 1.0; } }
+        pts.push(p);
+    }
+    let mut r2 = Rng::new(77);
+    let uu: Vec<uuid::Uuid> = pts.iter().map(|_| r2.uuid()).collect();
+    let vs = mk::<D>(&pts, &uu);
+    let mut problems: Vec<String> = Vec::new();
+    let vals = |o: &[V<D>]| -> String { o.iter().map(|v| hxs(v.point().coords())).collect::<Vec<_>>().join(";") };
+    for (order, strat) in [(1u8, InsertionOrderStrategy::Lexicographic), (2, InsertionOrderStrategy::Morton), (3, InsertionOrderStrategy::Hilbert)] {
+        let base_seq = match catch(|| verif_api::order_vertices(vs.clone(), strat)) { Ok(o) => vals(&o), Err(m) => format!("PANIC:{m}") };
+        let opts = Opts { order, dedup: 0, simplex: 0, retry: 1 };
+        let base_sig = build_sig::<D>(&vs, &opts, true);
+        for _ in 0..6 {
+            let mut idx: Vec<usize> = (0..vs.len()).collect();
+            rng.shuffle(&mut idx);
+            let pv: Vec<V<D>> = idx.iter().map(|&i| vs[i]).collect();
+            let seq = match catch(|| verif_api::order_vertices(pv.clone(), strat)) { Ok(o) => vals(&o), Err(m) => format!("PANIC:{m}") };
+            if seq != base_seq { problems.push(format!("order={order}: the ordered value sequence depends on the caller's listing order (quantisation ties)")); break; }
+            let sp = build_sig::<D>(&pv, &opts, true);
+            if sp != base_sig { problems.push(format!("order={order}: the built cell set depends on the caller's listing order (quantisation ties)")); break; }
+        }
+    }
+    out.case(id, "chk", &format!("D={D} what=tie_cluster"));
+    for p in &pts { out.line(&format!("p {}", hxs(p))); }
+    if !problems.is_empty() { out.obs("fail", &problems.join(" / ")); } else { out.obs("same", "1"); }
+    out.end();
+}
+
 pub fn run(cfg: &Cfg, rng: &mut Rng, out: &mut Out) {
     if let Some(i) = cfg.extra.iter().position(|x| x == "--child") { child(&cfg.extra[i..]); std::process::exit(0); }
     let thorough = cfg.tier == "thorough";
+    for i in 0..(if thorough { 12 } else { 3 }) {
+        tie_cluster::<2>(&format!("tc2_{i}"), rng, out);
+        tie_cluster::<3>(&format!("tc3_{i}"), rng, out);
+        tie_cluster::<4>(&format!("tc4_{i}"), rng, out);
+    }
     let n = if thorough { 300 } else { 36 };
     for i in 0..n {
         let id = format!("n{i}");
